@@ -4,6 +4,7 @@ MODULES = {
     # name -> where the package under test lives in /repo and which harness directory is overlaid into it
     "rueidis": {"dir": ".", "harness": "rueidis"},
     "rueidiscompat": {"dir": "rueidiscompat", "harness": "rueidiscompat", "package": "rueidiscompat"},
+    "rueidisaside": {"dir": "rueidisaside", "harness": "rueidisaside", "package": "rueidisaside"},
 }
 
 REAL = ("all of package github.com/redis/rueidis built from /repo's working tree with -tags verif "
@@ -488,5 +489,16 @@ CHECKS = {
         "components": {"real": "packages github.com/redis/rueidis/rueidiscompat and github.com/redis/rueidis built from /repo's working tree with -tags verif", "stubs": STUBS},
         "assumptions": ["arguments a go-redis program could not pass (odd key/value lists, wrongly typed variadics) may make the adapter panic while queuing; that is not judged",
                         "when Exec itself reports a transport or context error the individual results are not judged"],
+    },
+    "C39": {
+        "level": "exploration",
+        "rule": ("DRAFT"),
+        "parts": [
+            {"module": "rueidisaside", "scenario": "aside", "quick": 3000, "thorough": 300000},
+            {"module": "rueidisaside", "scenario": "aside", "variant": "calm", "quick": 1000, "thorough": 100000},
+        ],
+        "expected_probes": [],
+        "components": {"real": "packages github.com/redis/rueidis/rueidisaside and github.com/redis/rueidis built from /repo's working tree with -tags verif", "stubs": STUBS},
+        "assumptions": [],
     },
 }
